@@ -342,7 +342,7 @@ def perc_record_fixed(b, E, peaks, perc):
     return rec
 
 
-def npaths_record(rng, b, E, diagonal):
+def npaths_record(rng, b, E, diagonal, quick_second=False):
     import networkx as nx
     from fractions import Fraction
     from pymatgen.core import Lattice
@@ -355,11 +355,19 @@ def npaths_record(rng, b, E, diagonal):
     start, stop = free[i], free[j]
     n = int(rng.integers(1, 5))
     fr = [Fraction(3, 20), Fraction(1, 4), Fraction(1, 2), Fraction(0, 1)][int(rng.integers(0, 4))]
+    method = str(rng.choice(['dijkstra', 'bellman-ford', 'simple', 'default']))
+    if quick_second:
+        # two paths, any difference accepted: the enumeration stops at the first path that differs from the optimal one, so larger
+        # grids (where the path with the fewest steps is not the cheapest one) are affordable
+        n, fr = 2, Fraction(0, 1)
+        method = ['simple', 'dijkstra', 'simple', 'bellman-ford'][b % 4]
     rec = {'b': b, 'act': 'NPaths', 'E': E.tolist(), 'diagonal': bool(diagonal), 'start': [int(x) for x in start], 'stop': [int(x) for x in stop],
-           'n': n, 'num': fr.numerator, 'den': fr.denominator, 'raised': False, 'paths': [], 'meta': {'n_paths': n, 'min_diff': float(fr)}}
+           'n': n, 'num': fr.numerator, 'den': fr.denominator, 'raised': False, 'paths': [], 'kind0': 'simple' if method == 'simple' else 'sum',
+           'meta': {'n_paths': n, 'min_diff': float(fr), 'method': method}}
     G = F.free_energy_graph(max_energy_threshold=1e7, diagonal=diagonal)
+    kw = {} if method == 'default' else {'method': method}
     try:
-        paths = F.optimal_n_paths(G, start=tuple(int(x) for x in start), stop=tuple(int(x) for x in stop), n_paths=n, min_diff=float(fr))
+        paths = F.optimal_n_paths(G, start=tuple(int(x) for x in start), stop=tuple(int(x) for x in stop), n_paths=n, min_diff=float(fr), **kw)
     except (nx.NetworkXNoPath, nx.NodeNotFound):
         rec['raised'] = True
         return rec
